@@ -7,6 +7,8 @@
 From RichModel Require Import Prelude Cells Segments Ratio Frames Layout SpecLayout.
 From RichModel Require Table Wrap.
 From RichProofs Require Import LayoutP LayoutP2 LayoutP8 LayoutP3 LayoutP4 LayoutP5 LayoutP6 LayoutP7.
+(* T2 tie: ratio_reduce/ratio_distribute/_collapse_widths and the measurement arithmetic regenerated from /repo and proved equal to the hand model *)
+From RichProofs.bridge Require BridgeRatio BridgeMeasure.
 
 (* The property, at full strength: EVERY nesting of the built-in renderables -- tables inside tables inside
    panels ... to any depth --, every layout option of the quantifier (`wrappable`: no text/column switches
